@@ -11,6 +11,22 @@ E2 = "stateless model checking: exhaustive DFS of the choice tree of RNG answers
 E3 = "explicit-state BFS over operation histories of the real object, reference-model comparison in every state"
 
 CHECKS = {
+    "C04": dict(
+        built=True,
+        category="exploration",
+        engine="E1",
+        technique=E1 + "; all small MILPs x integer subsets x configuration menu, exact oracle = lattice enumeration inside the exact "
+        "bounding box x exact rational LP over the continuous coordinates",
+        text="All MILPs with <=2 variables and <=2 rows over A in {-1,0,1,2}, b in {-1..3}, c in {-1,0,1,2}, every subset of integer "
+        "variables, min and max, heuristics on/off; the configuration menu (warm starts incl. infeasible by a row, by sign, fractional, "
+        "wrong length; solution_limit; LNS seeds) on every instance whose root relaxation is fractional; 3-variable families with "
+        "explicit binary bounds and with rows that only look like binary bounds. Every returned point is checked for Ax<=b, x>=0, "
+        "integrality and objective = c.x; OPTIMAL/INFEASIBLE/UNBOUNDED are compared with the exact verdict.",
+        note="Trusts: vf/lpref.py (exact rational LP) and lattice enumeration. Instances with an integer variable unbounded in the "
+        "relaxation but a bounded objective are filtered out; for relaxation-unbounded instances only UNBOUNDED claims and returned "
+        "points are judged.",
+        ref="2/C04",
+    ),
     "C03": dict(
         built=True,
         category="exploration",
